@@ -90,7 +90,11 @@ int run_main(int argc, char** argv, const char* harness_name, CaseGen gen) {
       else if (k == "input") { std::string n; double v; ls >> n >> v; R().inputs[n] = v; }
     }
   }
-  std::vector<Case> cases; gen(opt, cases);
+  // thorough tier: the families are generated for three consecutive seeds (the seed-dependent members differ, fixed members repeat);
+  // cases of the later seeds carry the suffix #s<k>, so a replay file names its case uniquely
+  std::vector<Case> cases;
+  { int nseeds = (opt.tier == "thorough") ? 3 : 1;
+    for (int k = 0; k < nseeds; k++) { Options o2 = opt; o2.seed = opt.seed + k; std::vector<Case> t; gen(o2, t); for (auto& c : t) { if (k > 0) c.name += "#s" + std::to_string(k); cases.push_back(c); } } }
   for (auto& c : cases) {
     if (c.name != only) continue;
     std::cout << "REPLAY harness=" << harness_name << " case=" << c.name << std::endl;
